@@ -232,7 +232,7 @@ def c_fasta_edit(rng):
             ops.append(f"fa_del {es(h)}")
             hist.append(["del", h])
         else:
-            ops.append(f"fa_get {es(h)}")
+            ops.append(rng.choice([f"fa_get {es(h)}", "fa_copy"]))
     ops += ["fa_poke", "fa_items", "fa_reread"]
     return {"kind": "fasta_edit", "ops": ops, "spec": {"o": "fasta", "cpl": cpl, "hist": hist}}
 
@@ -302,11 +302,21 @@ def c_fastq_edit(rng):
             q = g_scores(rng, off, len(s), cpl)
             ops.append(f"fq_set {es(h)} {es(s)} {ei(q)}")
             hist.append(["set", h, s, q])
-        elif r < 0.85:
+        elif r < 0.8:
             ops.append(f"fq_del {es(h)}")
             hist.append(["del", h])
+        elif r < 0.9:
+            # a replacement / addition that must be refused: score not encodable, or lengths differ
+            s = g_seq(rng, NUC, nonempty=True)
+            q = g_scores(rng, off, len(s), cpl)
+            if rng.random() < 0.6:
+                q[rng.randrange(len(q))] = rng.choice([127 - off + 1, 200, -off - 1])
+            else:
+                q = q + [0]
+            ops.append(f"fq_set {es(h)} {es(s)} {ei(q)}")
+            hist.append(["set", h, s, q])
         else:
-            ops.append(f"fq_get {es(h)}")
+            ops.append(rng.choice([f"fq_get {es(h)}", "fq_copy"]))
     ops += ["fq_poke", "fq_items", "fq_reread"]
     return {"kind": "fastq_edit", "ops": ops, "spec": {"o": "fastq", "off": off, "cpl": cpl, "hist": hist}}
 
@@ -392,6 +402,8 @@ def g_text(rng, extra=""):
     s = "".join(rng.choice(pool) for _ in range(rng.choice([0, 1, 2, 4, 8])))
     if rng.random() < 0.1:
         s += rng.choice(["é", "%41", "%zz", "字", "%"])
+    if rng.random() < 0.05:
+        s = rng.choice([".", "##x", "#", ">", "a\tb", ";", "=", "ID"])      # looks like a delimiter / placeholder of the format
     return s
 
 
@@ -456,7 +468,11 @@ def c_gff_edit(rng):
     for _ in range(rng.randint(2, 7)):
         r = rng.random()
         if r < 0.4 or n == 0:
-            e = g_gff_entry(rng)
+            e = g_gff_entry(rng, valid=n == 0 or rng.random() < 0.85)      # an invalid entry (empty column, '#'/'>' seqid) must be refused
+            if e[0].strip()[:1] in ("#", ">", "") or not e[1].strip() or not e[2].strip():
+                ops.append(f"gff_append {safe} {enc_entry(e)}")
+                hist.append(["append", e])
+                continue
             ops.append(f"gff_append {safe} {enc_entry(e)}")
             hist.append(["append", e])
             n += 1
@@ -484,7 +500,7 @@ def c_gff_edit(rng):
             ops.append(f"gff_directive {es(d)} {es(d + ' ' + ' '.join(args))}")
             hist.append(["directive", d, args])
         else:
-            ops.append(rng.choice([f"gff_get {rng.randint(-n - 1, n)}", "gff_poke"]))
+            ops.append(rng.choice([f"gff_get {rng.randint(-n - 1, n)}", "gff_poke", "gff_copy"]))
     ops += ["gff_poke", "gff_reread"]
     return {"kind": "gff_edit", "ops": ops, "spec": {"o": "gff_hist", "hist": hist}}
 
@@ -643,7 +659,7 @@ def c_gff_text(rng):
 def g_gb_field(rng):
     name = rng.choice(["LOCUS", "definition", "ACCESSION", "Source", " Source ", "comment  ", "REFERENCE", "COMMENT", "X", "ABCDEFGHIJKL", "FEATURES", "ORIGIN"])
     def ln():
-        return rng.choice(["one line", "x", "a  b ", "1..2", "     gene            1..5", "        1 acgt"])
+        return rng.choice(["one line", "x", "a  b ", "1..2", "     gene            1..5", "        1 acgt", "//", "// x", "ORIGIN", "FEATURES  x", ""])
     if name in ("FEATURES", "ORIGIN"):
         # content of these two fields is stored without indentation: valid lines start with a blank
         content = [rng.choice(["     gene            1..5", "        1 acgt", "                     /note=\"x\""]) for _ in range(rng.choice([0, 1, 2]))]
@@ -682,7 +698,7 @@ def c_gb_edit(rng):
             if -n <= i < n:
                 n -= 1
         else:
-            ops.append(rng.choice([f"gb_get {rng.randint(-n, n)}", "gb_poke"]))
+            ops.append(rng.choice([f"gb_get {rng.randint(-n, n)}", "gb_poke", "gb_copy"]))
     ops += ["gb_poke", "gb_reread"]
     return {"kind": "gb_edit", "ops": ops, "spec": {"o": "gb_hist", "hist": hist}}
 
@@ -758,7 +774,43 @@ def c_seq_conv(rng):
     return {"kind": "seq_conv_rt", "spec": {"o": "seq_conv", "fmt": fmt, "entries": ents, "cpl": rng.choice([None, 1, 4, 80]), "off": rng.choice(["Sanger", "Solexa", "Illumina-1.3", "Illumina-1.5", "Illumina-1.8"]), "seed": rng.randint(0, 10**6)}}
 
 
-GENS = [(c_fasta_rt, 8), (c_fasta_edit, 8), (c_fasta_text, 4), (c_fastq_rt, 8), (c_fastq_edit, 6), (c_fastq_text, 4),
+# ---- less-used entry points of the anchored modules (oracle only)
+def c_api(rng):
+    sub = rng.choice(["multifile", "alignment", "metadata", "general", "options", "path_io"])
+    spec = {"o": "api", "sub": sub, "seed": rng.randint(0, 10**6)}
+    if sub == "multifile":
+        recs = []
+        for i in range(rng.choice([1, 2, 3, 4])):
+            recs.append({"locus": f"REC{i}", "definition": f"record {i} " + g_header(rng).replace("/", "_"),
+                         "seq": g_seq(rng, NUC, nonempty=True), "extra": rng.random() < 0.5})
+        spec["records"] = recs
+    elif sub == "alignment":
+        n = rng.choice([2, 2, 3, 4]); ln = rng.choice([1, 4, 9, 80, 81])
+        rows = []
+        for _ in range(n):
+            rows.append("".join(rng.choice("ACGT-") for _ in range(ln)))
+        rows[0] = rows[0].replace("-", "A") if all(c == "-" for c in rows[0]) else rows[0]
+        spec["rows"] = rows; spec["names"] = [f"s{i} " + g_header(rng) for i in range(n)]; spec["cpl"] = rng.choice([1, 7, 80])
+    elif sub == "metadata":
+        spec.update({"name": rng.choice(["AJ311647", "X", "SEQ_1"]), "length": rng.choice([1, 12, 1224, 4558953]),
+                     "mol_type": rng.choice([None, "DNA", "RNA", "Protein", "mRNA"]), "circular": rng.random() < 0.5,
+                     "division": rng.choice([None, "BCT", "VRT", "PRI"]), "date": rng.choice([None, "14-NOV-2006"]),
+                     "definition": rng.choice(["Gallus gallus AVD gene.", "x", "two words"]), "accession": rng.choice(["AJ311647", "CP001509"]),
+                     "version": rng.choice(["AJ311647.1", "CP1.2"]), "gi": rng.choice([None, 13397825]), "source": rng.choice(["Gallus gallus (chicken)", "E. coli"]),
+                     "dblink": {"BioProject": "PRJNA20713", "BioSample": "SAMN02603478"} if rng.random() < 0.6 else {}})
+    elif sub == "general":
+        spec["suffix"] = rng.choice([".fasta", ".fa", ".fastq", ".fq", ".gb", ".gp", ".gbk"])
+        spec["seqs"] = [[f"n{i}", g_seq(rng, PROT if spec["suffix"] == ".gp" else NUC, nonempty=True)] for i in range(rng.choice([1, 2, 3]))]
+    elif sub == "options":
+        spec["feats"] = [g_gb_feat(rng) for _ in range(rng.choice([1, 2, 3]))]
+        spec["seq"] = g_seq(rng, NUC, nonempty=True)
+    else:
+        ents, cpl = g_fasta(rng)
+        spec["entries"] = ents; spec["cpl"] = cpl
+    return {"kind": "api_" + sub, "spec": spec}
+
+
+GENS = [(c_api, 10), (c_fasta_rt, 8), (c_fasta_edit, 8), (c_fasta_text, 4), (c_fastq_rt, 8), (c_fastq_edit, 6), (c_fastq_text, 4),
         (c_fastq_offset, 2), (c_loc, 10), (c_loc_parse, 6), (c_gff_quote, 4), (c_gff_line, 8), (c_gff_parse, 3),
         (c_gff_edit, 8), (c_gff_edit_dir, 5), (c_gff_group, 5), (c_gff_text, 3), (c_gbf_rt, 8), (c_gbf_print, 4), (c_gbf_parse, 6), (c_org_print, 4), (c_org_read, 3), (c_gb_edit, 8), (c_gb_text, 3), (c_wrap, 2), (c_genbank, 10), (c_gff_annot, 5),
         (c_seq_conv, 4)]
@@ -1274,6 +1326,37 @@ def _alias_check(fmt, f, cls, read_args=(), inputs=()):
                 return [(f"C12/{fmt}/view-shares-caller-object", "get_annotation() of a freshly read file differs after the caller edited its copies")]
         except Exception:  # noqa: BLE001
             pass
+    # file.copy(): an equal file object (same text, same parsed view) that shares nothing with the original
+    try:
+        c = f.copy()
+        snap_c = _snap(fmt, c)
+    except Exception as e:  # noqa: BLE001
+        return [(f"C12/{fmt}/copy-inconsistent", f"copy() of a file object: {type(e).__name__}: {e}")]
+    if snap_c != before:
+        return [(f"C12/{fmt}/copy-inconsistent", f"copy() reports {str(snap_c[0])[:160]} but the original {str(before[0])[:160]} (same text: {snap_c[-1] == before[-1]})")]
+    try:
+        if fmt == "gff":
+            c.append("copyseq", "x", "t", 1, 2, None, None, None, {"ID": "only-in-copy"})
+            del c[0]
+        elif fmt == "genbank":
+            c.append("COPYONLY", ["x"])
+            del c[0]
+        elif fmt == "fasta":
+            c["only-in-copy"] = "ACGT"
+            del c[next(iter(before[0]))[0]]
+        else:
+            del c[before[0][0][0]]
+    except Exception as e:  # noqa: BLE001
+        return [(f"C12/{fmt}/copy-inconsistent", f"editing the copy: {type(e).__name__}: {e}")]
+    if _snap(fmt, f) != before:
+        return [(f"C12/{fmt}/copy-inconsistent", "editing the copy changed the original")]
+    if c.lines:
+        try:
+            fresh_c = _snap(fmt, cls.read(io.StringIO(str(c) + "\n"), *read_args))
+        except Exception as e:  # noqa: BLE001
+            return [(f"C12/{fmt}/copy-inconsistent", f"text of the edited copy unreadable: {type(e).__name__}: {e}")]
+        if fresh_c[0] != _snap(fmt, c)[0]:
+            return [(f"C12/{fmt}/copy-inconsistent", f"edited copy reports {str(_snap(fmt, c)[0])[:120]} but its text says {str(fresh_c[0])[:120]}")]
     return []
 
 
@@ -1303,6 +1386,8 @@ def _o_fasta(spec):
                     v.append(("C12/fasta/edit/key-lost", f"del {h!r}: KeyError although the header is in the text"))
                     ref.pop(h, None)
                     return v
+                if list(f.items()) != list(ref.items()):
+                    return v + [("C12/fasta/refused-call-changed-object", f"del {h!r} raised KeyError but the file changed")]
             except Exception as e:  # noqa: BLE001
                 return v + [(f"C12/fasta/edit-raises/{type(e).__name__}", f"del {h!r} (chars_per_line {spec['cpl']}): {e}")]
         if f.lines:
@@ -1371,16 +1456,23 @@ def _o_fastq(spec):
     for step in spec["hist"]:
         if step[0] == "set":
             _, h, s, q = step
+            before = _snap("fastq", f)
+            expect_refusal = len(s) == 0 or len(s) != len(q) or any(not 0 <= x + off <= 127 for x in q)
             try:
                 f[h] = (s, np.array(q, dtype=int))
             except ValueError:
-                if len(s) == 0:
-                    continue        # an empty sequence cannot be represented: rejected, file unchanged
+                if expect_refusal:
+                    # rejected (empty sequence, lengths differ, score not encodable): the file must be unchanged
+                    if _snap("fastq", f) != before:
+                        return v + [("C12/fastq/refused-call-changed-object", f"set {h!r} was rejected but the file changed from {str(before[0])[:120]} to {str(_snap('fastq', f)[0])[:120]}")]
+                    continue
                 raise
             except Exception as e:  # noqa: BLE001
                 return v + [(f"C12/fastq/edit-raises/{type(e).__name__}", f"set {h!r} (len {len(s)}, chars_per_line {cpl}): {e}")]
             if len(s) == 0:
                 return v + [("C12/fastq/empty-sequence-written-unreadable", "an empty sequence was accepted")]
+            if expect_refusal:
+                return v + [("C12/fastq/unencodable-entry-accepted", f"set {h!r}: {len(s)} symbols, scores {q[:6]} with offset {off} accepted")]
             ref.pop(_norm(h), None)
             ref[_norm(h)] = (s, q)
         else:
@@ -1586,6 +1678,10 @@ def _o_gff_hist(spec):
     v = []
     for step in spec["hist"]:
         try:
+            before_step = _snap("gff", f)
+        except Exception:  # noqa: BLE001
+            before_step = None
+        try:
             if step[0] == "append":
                 t = _entry_tuple(step[1]); f.append(*t); ref.append(t)
             elif step[0] == "insert":
@@ -1599,6 +1695,8 @@ def _o_gff_hist(spec):
             elif step[0] == "directive":
                 f.append_directive(step[1], *step[2])
         except (IndexError, NotImplementedError, ValueError):
+            if _snap("gff", f) != before_step:
+                return [("C12/gff/refused-call-changed-object", f"{step[0]} {step[1] if step[0] != 'append' else ''} was rejected but the file changed")]
             continue
         try:
             view = [f[i] for i in range(len(f))]
@@ -1632,6 +1730,7 @@ def _o_gb_hist(spec):
         nm = name.strip().upper()
         return (nm, list(content), OrderedDict() if nm in ("FEATURES", "ORIGIN") else OrderedDict((k.upper().strip(), list(x)) for k, x in (subs or {}).items()))
     for step in spec["hist"]:
+        before_step = _snap("genbank", f)
         try:
             if step[0] == "append":
                 f.append(*step[1:]); ref.append(item(*step[1:]))
@@ -1651,11 +1750,16 @@ def _o_gb_hist(spec):
             elif step[0] == "del":
                 del f[step[1]]; del ref[step[1]]
         except (IndexError, InvalidFileError):
+            if _snap("genbank", f) != before_step:
+                return [("C12/genbank/refused-call-changed-object", f"{step[:2]} was rejected but the file changed")]
             continue
         except ValueError:
             nm = step[-3].strip().upper()
-            if nm not in ("FEATURES", "ORIGIN") and (not step[-2] or any(not x for x in (step[-1] or {}).values())):
-                continue    # a field / subfield without content lines is rejected, file unchanged
+            if not nm or (nm not in ("FEATURES", "ORIGIN") and (not step[-2] or any(not x for x in (step[-1] or {}).values()))):
+                # empty name / a field or subfield without content lines is rejected: the file must be unchanged
+                if _snap("genbank", f) != before_step:
+                    return [("C12/genbank/refused-call-changed-object", f"{step[:2]} was rejected but the file changed")]
+                continue
             raise
         view = [f[i] for i in range(len(f))]
         g = _reread(GenBankFile, f)
@@ -1731,7 +1835,157 @@ def _o_origin(spec):
     return v
 
 
-ORACLES = {"origin": _o_origin, "fasta": _o_fasta, "fasta_text": _o_fasta_text, "fastq": _o_fastq, "fastq_text": _o_fastq_text, "loc": _o_loc,
+def _o_api(spec):
+    import pathlib
+    import random
+    import tempfile
+    import numpy as np
+    from common import paths
+    import biotite.sequence.io.genbank as gb
+    from biotite.sequence import NucleotideSequence, ProteinSequence
+    from biotite.sequence.io import fasta, fastq, general
+    import biotite.sequence.io.gff as gff
+    sub = spec["sub"]
+    v = []
+    if sub == "multifile":
+        files, text = [], []
+        for r in spec["records"]:
+            f = gb.GenBankFile()
+            gb.set_locus(f, r["locus"], len(r["seq"]))
+            f.set_field("DEFINITION", [r["definition"]])
+            if r["extra"]:
+                f.set_field("COMMENT", ["a", "b"], {"sub": ["c"]})
+            gb.set_sequence(f, NucleotideSequence(r["seq"]))
+            files.append(f)
+            text += f.lines
+        multi = gb.MultiFile.read(io.StringIO("\n".join(text) + "\n"))
+        got = list(multi)
+        if [g.lines for g in got] != [f.lines for f in files]:
+            v.append(("C12/genbank/multifile-records", f"records {[g.lines[:2] for g in got]} instead of {[f.lines[:2] for f in files]}"))
+        elif [[g[i] for i in range(len(g))] for g in got] != [[f[i] for i in range(len(f))] for f in files]:
+            v.append(("C12/genbank/multifile-records", "fields of the records differ"))
+        elif [(gb.get_definition(g), str(gb.get_sequence(g)), gb.get_raw_sequence(g)) for g in got] != [(r["definition"].strip(), r["seq"], r["seq"].lower()) for r in spec["records"]]:
+            v.append(("C12/genbank/multifile-records", "definition / sequence of the records differ"))
+        return v
+    if sub == "alignment":
+        from biotite.sequence.align import Alignment
+        rows = spec["rows"]
+        seqs = [NucleotideSequence(r.replace("-", "")) for r in rows]
+        ali = Alignment(seqs, Alignment.trace_from_strings(rows), None)
+        f = fasta.FastaFile(chars_per_line=spec["cpl"])
+        names = [n.strip() for n in spec["names"]]
+        fasta.set_alignment(f, ali, names)
+        g = _reread(fasta.FastaFile, f, spec["cpl"])
+        back = fasta.get_alignment(g)
+        if list(g.keys()) != names or back.get_gapped_sequences() != rows or [str(x) for x in back.sequences] != [str(x) for x in seqs]:
+            v.append(("C12/fasta/alignment-roundtrip", f"{rows} -> {back.get_gapped_sequences()} names {list(g.keys())}"))
+        return v
+    if sub == "metadata":
+        f = gb.GenBankFile()
+        gb.set_locus(f, spec["name"], spec["length"], spec["mol_type"], spec["circular"], spec["division"], spec["date"])
+        f.set_field("DEFINITION", [spec["definition"]])
+        f.set_field("ACCESSION", [spec["accession"]])
+        f.set_field("VERSION", [spec["version"] + ("  GI:" + str(spec["gi"]) if spec["gi"] else "")])
+        if spec["dblink"]:
+            f.set_field("DBLINK", [f"{k}: {x}" for k, x in spec["dblink"].items()])
+        f.set_field("SOURCE", [spec["source"]], {"ORGANISM": [spec["source"], "Eukaryota; Metazoa."]})
+        g = _reread(gb.GenBankFile, f)
+        if spec["division"] is not None and spec["date"] is not None:
+            got = gb.get_locus(g)
+            exp = (spec["name"], spec["length"], spec["mol_type"] or None, spec["circular"], spec["division"], spec["date"])
+            if got != exp:
+                v.append(("C12/genbank/locus-roundtrip", f"set_locus{exp} read back as {got}"))
+        if (gb.get_definition(g), gb.get_accession(g), gb.get_version(g), gb.get_source(g)) != (spec["definition"], spec["accession"], spec["version"], spec["source"]):
+            v.append(("C12/genbank/metadata-roundtrip", f"{(gb.get_definition(g), gb.get_accession(g), gb.get_version(g), gb.get_source(g))}"))
+        if spec["gi"] and gb.get_gi(g) != spec["gi"]:
+            v.append(("C12/genbank/metadata-roundtrip", f"GI {gb.get_gi(g)}"))
+        if spec["dblink"] and gb.get_db_link(g) != spec["dblink"]:
+            v.append(("C12/genbank/metadata-roundtrip", f"DBLINK {gb.get_db_link(g)}"))
+        if g.get_indices("source") != [len(g) - 1] or g.get_fields("Source")[0][1] != {"ORGANISM": [spec["source"], "Eukaryota; Metazoa."]}:
+            v.append(("C12/genbank/metadata-roundtrip", "get_indices / get_fields('SOURCE')"))
+        return v
+    os.makedirs(paths.BUILD, exist_ok=True)
+    with tempfile.TemporaryDirectory(dir=paths.BUILD) as tmp:
+        if sub == "general":
+            suf = spec["suffix"]
+            cls = ProteinSequence if suf == ".gp" else NucleotideSequence
+            seqs = {n: cls(x) for n, x in spec["seqs"]}
+            first = next(iter(seqs.values()))
+            path = os.path.join(tmp, "one" + suf)
+            general.save_sequence(path, first)
+            back = general.load_sequence(path)
+            if str(back) != str(first) or type(back) is not type(first):
+                v.append(("C12/general/save-load-sequence", f"{suf}: {str(first)[:30]} -> {str(back)[:30]} ({type(back).__name__})"))
+            if suf in (".fasta", ".fa", ".fastq", ".fq"):
+                path = pathlib.Path(tmp) / ("many" + suf)
+                general.save_sequences(path, seqs)
+                back = general.load_sequences(path)
+                if [(k, str(x)) for k, x in back.items()] != [(k, str(x)) for k, x in seqs.items()]:
+                    v.append(("C12/general/save-load-sequences", f"{suf}: {list(back.items())[:2]}"))
+            return v
+        if sub == "path_io":
+            f = fasta.FastaFile(chars_per_line=spec["cpl"])
+            for h, x in spec["entries"]:
+                f[h] = x
+            p1 = os.path.join(tmp, "a.fasta"); p2 = pathlib.Path(tmp) / "b.fasta"
+            f.write(p1); f.write(p2)
+            buf = io.StringIO(); f.write(buf)
+            if open(p1).read() != buf.getvalue() or open(p2).read() != buf.getvalue():
+                v.append(("C12/textfile/path-vs-object", "write(path) differs from write(file object)"))
+            a, b = fasta.FastaFile.read(p1, spec["cpl"]), fasta.FastaFile.read(p2, spec["cpl"])
+            with open(p1) as fh:
+                c = fasta.FastaFile.read(fh, spec["cpl"])
+            if not (list(a.items()) == list(b.items()) == list(c.items()) == list(f.items())) or a._chars_per_line != spec["cpl"]:
+                v.append(("C12/textfile/path-vs-object", "read(path) differs from read(file object)"))
+            if list(fasta.FastaFile.read_iter(p1)) != list(f.items()):
+                v.append(("C12/textfile/path-vs-object", "read_iter(path)"))
+            fasta.FastaFile.write_iter(p2, f.items(), spec["cpl"])
+            if open(p2).read() != buf.getvalue():
+                v.append(("C12/textfile/path-vs-object", "write_iter(path)"))
+            try:
+                fasta.FastaFile.read(io.BytesIO(b">a\nAC\n"))
+                v.append(("C12/textfile/binary-file-accepted", "read() of a binary file object"))
+            except TypeError:
+                pass
+            return v
+    # options: non-default values of the optional parameters
+    rnd = random.Random(spec["seed"])
+    seq = NucleotideSequence(spec["seq"])
+    f = fasta.FastaFile()
+    fasta.set_sequence(f, seq, header="rna", as_rna=True)
+    fasta.set_sequence(f, seq)
+    g = _reread(fasta.FastaFile, f, 80)
+    if "T" in g["rna"] or g["rna"].replace("U", "T") != spec["seq"] or str(fasta.get_sequence(g)) != spec["seq"] or str(fasta.get_sequence(g, "sequence")) != spec["seq"] or list(g.keys()) != ["rna", "sequence"]:
+        v.append(("C12/fasta/as_rna-or-default-header", f"{dict(g.items())}"))
+    q = fastq.FastqFile(offset="Illumina-1.8")
+    scores = np.array([rnd.randint(0, 40) for _ in spec["seq"]])
+    fastq.set_sequence(q, seq, scores, as_rna=True)
+    q2 = _reread(fastq.FastqFile, q, 33)
+    s2, sc2 = fastq.get_sequence(q2)
+    if str(s2) != spec["seq"] or list(sc2) != list(scores) or list(q2.keys()) != ["sequence"] or "T" in q2.get_seq_string("sequence"):
+        v.append(("C12/fastq/as_rna-or-default-header", f"{q2.lines[:4]}"))
+    annot = _mkannot(spec["feats"])
+    keys = sorted({ft["key"] for ft in spec["feats"]})
+    only = keys[: max(1, len(keys) // 2)]
+    gbf = gb.GenBankFile()
+    gb.set_annotation(gbf, annot)
+    sub_annot = gb.get_annotation(_reread(gb.GenBankFile, gbf), include_only=only)
+    if set(sub_annot) != {ft for ft in annot if ft.key in only}:
+        v.append(("C12/genbank/include_only", f"include_only={only}: {sorted(x.key for x in sub_annot)}"))
+    feats = [dict(ft, locs=[[a, b, r, 0] for a, b, r, _ in ft["locs"]], qual={**{k: x for k, x in ft["qual"].items() if x is not None}, "ID": f"f{i}"}) for i, ft in enumerate(spec["feats"])]
+    annot2 = _mkannot(feats)
+    gf = gff.GFFFile()
+    gff.set_annotation(gf, annot2, seqid="chrX", source="me", is_stranded=False)
+    g2 = _reread(gff.GFFFile, gf)
+    ents = [g2[i] for i in range(len(g2))]
+    if any(e[0] != "chrX" or e[1] != "me" or e[6] is not None for e in ents):
+        v.append(("C12/gff/set_annotation-options", f"seqid/source/is_stranded=False not honoured: {ents[:2]}"))
+    if sorted((e[2], e[3], e[4]) for e in ents) != sorted((ft.key, l.first, l.last) for ft in annot2 for l in ft.locs):
+        v.append(("C12/gff/set_annotation-options", "locations differ with is_stranded=False"))
+    return v
+
+
+ORACLES = {"api": _o_api, "origin": _o_origin, "fasta": _o_fasta, "fasta_text": _o_fasta_text, "fastq": _o_fastq, "fastq_text": _o_fastq_text, "loc": _o_loc,
            "genbank": _o_genbank, "gff_annot": _o_gff_annot, "gff_entries": _o_gff_entries, "gff_hist": _o_gff_hist,
            "gb_hist": _o_gb_hist, "quote": _o_quote, "seq_conv": _o_seq_conv}
 
